@@ -228,6 +228,13 @@ def limit_specs():
     L.append(("parens_20000", "%%\n" + "(" * 20000 + "a" + ")" * 20000 + " ;\nb ;\n%%\n", []))
     L.append(("alt_chain_20000", "%%\n" + "|".join(["a"] * 20000) + " ;\n%%\n", []))
     L.append(("cat_groups_12000", "%%\n" + "(a)" * 12000 + " ;\n%%\n", []))
+    # rule counts around the internal limit: an accepted specification must give a scanner
+    # that works (its last rule, a variable-trailing-context rule, must still fire)
+    for nr in (8185, 8190, 8193, 8198):
+        body = "".join("%c ;\n" % "abcdefgh"[k % 8] for k in range(nr - 2))
+        L.append(("rules_1char_%d" % nr, "%option noyywrap\n%%\n" + body +
+                  "zz+/y+x { puts(\"LAST\"); return 1; }\n%%\nint main(void) { yylex(); return 0; }\n",
+                  ["-w"], ("run", b"zzyyx", "LAST\n")))
     L.append(("empty", "", []))
     L.append(("only_marker", "%%", []))
     L.append(("nul_bytes", "%%\n\x00\x00 ;\n%%\n", []))
@@ -236,10 +243,11 @@ def limit_specs():
     L.append(("bufsize_huge", "%option bufsize=99999999999\n%%\na ;\n%%\n", []))
     # completeness oracle: the last line of the user-code section must reach the output
     out = []
-    for name, text, opts in L:
+    for item in L:
+        name, text, opts = item[:3]
         if text.endswith("%%\n") or name == "sect3_line_300k":
             text += SENTINEL + "\n"
-        out.append((name, text, opts))
+        out.append((name, text, opts) + tuple(item[3:]))
     return out
 
 
@@ -252,14 +260,27 @@ def limits(chk):
     items = limit_specs()
 
     def one(item):
-        name, text, opts = item
+        name, text, opts = item[:3]
         spec = os.path.join(d, name + ".l")
         util.write(spec, text.encode("latin1"))
         out = os.path.join(d, name + ".c")
         cmd = [flex.bin] + opts + ["-o", out, spec]
         res = util.run(cmd, cwd=d, env=flex.env(tmpdir=d), timeout=200, cpu_s=150)
-        return name, spec, cmd, res, out
-    for name, spec, cmd, res, out in util.pmap(one, items):
+        func = None
+        if len(item) > 3 and res.rc == 0 and os.path.exists(out):
+            # the accepted specification must yield a working scanner
+            exe = os.path.join(d, name + ".exe")
+            c = util.run(["gcc", "-w", "-O0", "-o", exe, out], cwd=d, env=util.clean_env(), timeout=300)
+            if c.rc != 0:
+                func = "scanner does not compile: %s" % c.err.decode("latin1")[-300:]
+            else:
+                x = util.run([exe], cwd=d, env=util.clean_env(), stdin=item[3][1], timeout=30)
+                if x.rc != 0 or x.out.decode("latin1") != item[3][2]:
+                    func = "scanner exit %s, output %r, expected %r" % (x.rc, x.out[:80], item[3][2])
+                else:
+                    func = "ok"
+        return name, spec, cmd, res, out, func
+    for name, spec, cmd, res, out, func in util.pmap(one, items):
         chk.count(1)
         chk.nontriv("limit:" + name)
         err = res.err.decode("latin1")
@@ -268,6 +289,10 @@ def limits(chk):
             chk.inconc("limit input %s exceeded 150 CPU-seconds" % name)
             continue
         chk.feat1("limit_inputs")
+        if func == "ok":
+            chk.feat1("limit_accepted_scanner_works")
+        elif func is not None:
+            v = v or ("accepted-broken", "flex exit 0, but the %s" % func)
         if res.rc != 0:
             chk.feat1("limit_rejected")
             first = err.strip().splitlines()[0] if err.strip() else ""
@@ -326,6 +351,15 @@ def write_faults(chk, tier):
             jobs.append((kind, "enospc@%d" % k, p, mk(p), k))
     # stdout target
     jobs.append(("stdout", "devfull", "/dev/full", ["-t"], None))
+    # a file size limit: the process that writes the file is killed by SIGXFSZ instead of
+    # getting an error; sizes just below the complete file, so that only the last write fails
+    ref = os.path.join(d, "ref_size.c")
+    rr = util.run([flex.bin, "-o", ref, spec], cwd=d, env=flex.env(tmpdir=d), timeout=30)
+    if rr.rc == 0 and os.path.exists(ref):
+        full = os.path.getsize(ref)
+        for delta in ([1, 100] if tier == "quick" else [1, 2, 7, 100, 1000, 4096, 20000]):
+            p = os.path.join(d, "fsize_%d.out" % delta)
+            jobs.append(("scanner", "fsize-%d" % delta, p, ["-o", p], ("fsize", full - delta)))
 
     def one(job):
         kind, fault, path, args, k = job
@@ -337,6 +371,10 @@ def write_faults(chk, tier):
             res = util.run(cmd, cwd=d, env=env, timeout=30, stdout=f)
             f.close()
             return job, cmd, res, None
+        if isinstance(k, tuple):
+            cmd = ["prlimit", "--fsize=%d" % k[1]] + cmd
+            res = util.run(cmd, cwd=d, env=env, timeout=40)
+            return job, cmd, res, True
         if k is not None:
             tr = os.path.join(d, "trace_%s_%d.txt" % (kind, k))
             cmd = ["strace", "-f", "-o", tr, "-P", path, "-e", "trace=write",
@@ -364,16 +402,20 @@ def write_faults(chk, tier):
             continue
         chk.feat1("write_faults_injected")
         chk.feat1("wf:" + kind)
+        if isinstance(k, tuple):
+            chk.feat1("wf:file_size_limit")
         bad = None
         if res.timed_out:
             bad = ("wf-hang", "flex (or its filter chain) did not terminate")
-        elif res.rc is not None and (res.rc < 0 or res.rc > 128):
+        elif res.rc is not None and (res.rc < 0 or res.rc > 128) and not (
+                isinstance(k, tuple) and res.rc in (-25, 153)):
+            # (under a file size limit flex itself may be the one that is killed: SIGXFSZ)
             bad = ("wf-signal", "flex ended by a signal (status %s) instead of reporting the "
                    "write failure; stderr %r" % (res.rc, err[-300:]))
         elif res.rc == 0:
             bad = ("wf-exit0", "exit status 0 although the %s file could not be written (%s)" % (
                 kind, fault))
-        elif not err.strip():
+        elif not err.strip() and not (isinstance(k, tuple) and res.rc in (-25, 153)):
             bad = ("wf-silent", "exit status %d without any diagnostic" % res.rc)
         if bad:
             def save(dst, cmd=cmd, err=err, job=job):
